@@ -43,8 +43,22 @@ def tobool(v):
 
 VARS = {n: z3.Real(n) for n in "xyz"}
 BIN_UF = {"+": "add", "*": "mul", "/": "truediv", "//": "floordiv", "%": "mod", "**": "pow"}
-CMP = {"==": lambda a, b: a == b, "!=": lambda a, b: a != b, "<": lambda a, b: a < b, "<=": lambda a, b: a <= b,
-       ">": lambda a, b: a > b, ">=": lambda a, b: a >= b}
+_ISNAN = z3.Function("is_nan", R, z3.BoolSort())
+
+
+def _ok(*xs):
+    """no operand is NaN: Python's comparisons are all False on a NaN operand (!= is True), so 'not (a < b)' is NOT 'a >= b'.  NaN-ness is an
+    uninterpreted predicate of the operand term (numerals are never NaN): it only separates trees that treat unordered operands differently."""
+    def never_nan(x):  # numerals, and truth values turned into 0/1
+        s = z3.simplify(x)
+        return z3.is_rational_value(s) or z3.is_int_value(s) or (z3.is_app_of(x, z3.Z3_OP_ITE) and z3.is_bool(x.arg(0)))
+
+    return z3.And([z3.Not(_ISNAN(x)) for x in xs if not never_nan(x)] or [z3.BoolVal(True)])
+
+
+CMP = {"==": lambda a, b: z3.And(_ok(a, b), a == b), "!=": lambda a, b: z3.Or(z3.Not(_ok(a, b)), a != b),
+       "<": lambda a, b: z3.And(_ok(a, b), a < b), "<=": lambda a, b: z3.And(_ok(a, b), a <= b),
+       ">": lambda a, b: z3.And(_ok(a, b), a > b), ">=": lambda a, b: z3.And(_ok(a, b), a >= b)}
 
 
 def lit(value):
@@ -191,6 +205,17 @@ def texts(tier, seed):
         out.add(f"x.abs() ** 2")
         out.add(f"({a}).maximum(y).minimum(3)")
         out.add(f"x.maximum(y) - ({a})")
+    # literal receivers (negative, float, zero) of methods with zero, one and two arguments; not applied directly to a comparison
+    for lit_ in ["-2.5", "2.5", "-2", "0", "1.0", "-0.5"]:
+        for m in ["abs()", "round()", "maximum(x)", "minimum(y)", "where(x, y)"]:
+            out.add(f"({lit_}).{m}")
+        out.add(f"x + ({lit_}).abs()")
+        out.add(f"-({lit_}).maximum(x)")
+    for o in CMP_OPS:
+        out.add(f"not x {o} y")
+        out.add(f"not (x {o} y)")
+        out.add(f"not x + 1 {o} y * 2")
+        out.add(f"not (x {o} y {o} 2)")
     # right-associativity and unary/power interplay
     for a, b, c in itertools.product(["x", "y", "2", "-x", "(-2)"], repeat=3):
         out.add(f"{a} ** {b} ** {c}")
@@ -283,7 +308,13 @@ def _model_row(m):
         except Exception:
             return 1.0
 
-    return {n: val(v) for n, v in VARS.items()}
+    def isnan(v):
+        try:
+            return z3.is_true(m.eval(_ISNAN(v), model_completion=True))
+        except Exception:
+            return False
+
+    return {n: (float("nan") if isnan(v) else val(v)) for n, v in VARS.items()}
 
 
 def check_text(t, cols, W, solver):
